@@ -471,13 +471,17 @@ static int dispatch(HttpAsyncCtx *clientCtx) {
 				size_t len = strlen(curlResponse->errMsg);
 				KSI_LOG_error(clientCtx->ctx, "[%p] Async Curl HTTP: error result %d (%s).",
 						clientCtx, curlMsg->data.result, curlResponse->errMsg);
-				handle->state = KSI_ASYNC_STATE_ERROR;
-				handle->err = KSI_NETWORK_ERROR;
-				handle->errExt = curlMsg->data.result;
-				/* The handle may already carry a message from an error PDU. */
-				KSI_Utf8String_free(handle->errMsg);
-				handle->errMsg = NULL;
-				if (len) KSI_Utf8String_new(clientCtx->ctx, curlResponse->errMsg, len + 1, &handle->errMsg);
+				/* A request that has been completed already (its response arrived with another transfer)
+				 * is not affected by the outcome of its own transfer any more. */
+				if (handle->state == KSI_ASYNC_STATE_WAITING_FOR_RESPONSE) {
+					handle->state = KSI_ASYNC_STATE_ERROR;
+					handle->err = KSI_NETWORK_ERROR;
+					handle->errExt = curlMsg->data.result;
+					/* The handle may already carry a message from an error PDU. */
+					KSI_Utf8String_free(handle->errMsg);
+					handle->errMsg = NULL;
+					if (len) KSI_Utf8String_new(clientCtx->ctx, curlResponse->errMsg, len + 1, &handle->errMsg);
+				}
 			} else {
 				long httpCode = 0;
 
@@ -491,13 +495,15 @@ static int dispatch(HttpAsyncCtx *clientCtx) {
 				if (httpCode >= 400 && httpCode < 600) {
 					size_t len = strlen(curlResponse->errMsg);
 					KSI_LOG_debug(clientCtx->ctx, "[%p] Async Curl HTTP: received HTTP code %ld.", clientCtx, httpCode);
-					handle->state = KSI_ASYNC_STATE_ERROR;
-					handle->err = KSI_HTTP_ERROR;
-					handle->errExt = httpCode;
-					/* The handle may already carry a message from an error PDU. */
-					KSI_Utf8String_free(handle->errMsg);
-					handle->errMsg = NULL;
-					if (len) KSI_Utf8String_new(clientCtx->ctx, curlResponse->errMsg, len + 1, &handle->errMsg);
+					if (handle->state == KSI_ASYNC_STATE_WAITING_FOR_RESPONSE) {
+						handle->state = KSI_ASYNC_STATE_ERROR;
+						handle->err = KSI_HTTP_ERROR;
+						handle->errExt = httpCode;
+						/* The handle may already carry a message from an error PDU. */
+						KSI_Utf8String_free(handle->errMsg);
+						handle->errMsg = NULL;
+						if (len) KSI_Utf8String_new(clientCtx->ctx, curlResponse->errMsg, len + 1, &handle->errMsg);
+					}
 				} else {
 					/* Process responses for all active clients. */
 					res = CurlAsyncRequest_processResponse(curlResponse);
